@@ -212,6 +212,22 @@ func rebuild(t *Term, na []*Term) *Term {
 		return mkCall(t.Name, na)
 	case "ext":
 		return mkExt(t.Name, na[0])
+	case "and":
+		return mkAnd(na)
+	case "or":
+		return mkOr(na)
+	case "len":
+		return Len(na[0])
+	case "ite":
+		if na[0].Key() == tTrue.Key() {
+			return na[1]
+		}
+		if na[0].Key() == tFalse.Key() {
+			return na[2]
+		}
+		if na[1].Key() == na[2].Key() {
+			return na[1]
+		}
 	}
 	return &Term{Op: t.Op, Name: t.Name, Args: na, FNames: t.FNames}
 }
